@@ -413,10 +413,15 @@ def world_predicates(ops, outs):
 
 # ------------------------------------------------------------------ Lua programs
 
+# a value with both __close and __gc; its __close handler marks a new value ("late:<n>")
+BOTH_PRELUDE = ("local function both(n) local mt = gcmt(n) mt.__close = function() log('close:' .. n) "
+                "_G['late_' .. n] = setmetatable({}, gcmt('late:' .. n)) end return setmetatable({}, mt) end")
+
+
 def lua_program(rng):
     """A deterministic program (no collector involved: everything stays reachable through globals)
     and the exact log the property prescribes."""
-    src = []
+    src = [BOTH_PRELUDE]
     expect = []
     counter = [0]
 
@@ -443,9 +448,15 @@ def lua_program(rng):
                 else:
                     src.append("%s%s = mkud('%s')" % (indent, v, v))
                     pool.append([v, "u", None, True])
-            elif r < 70 and pool:
-                # re-mark a value of THIS pool (re-marking across pools kills the process: separate finding)
-                e = rng.choice(pool)
+            elif r < 70 and [e for e in pool if e[1] != "c"]:
+                # re-mark a value of THIS pool
+                e = rng.choice([e for e in pool if e[1] != "c"])
+                if e[1] == "t" and rng.chance(1, 3):
+                    # same metatable again: still a re-marking (the value moves to the front of the close order)
+                    src.append("%ssetmetatable(%s, getmetatable(%s))" % (indent, e[0], e[0]))
+                    pool.remove(e)
+                    pool.append(e)
+                    continue
                 g = fresh("g")
                 src.append("%ssetmetatable(%s, gcmt('%s'))" % (indent, e[0], g) if e[1] == "t"
                            else "%sdebug.setmetatable(%s, gcmt('%s'))" % (indent, e[0], g))
@@ -453,9 +464,16 @@ def lua_program(rng):
                 e[2] = g
                 pool.append(e)
             elif r < 90 and depth < 2:
-                kind = rng.choice(["ok", "ok", "error", "kill"])
+                kind = rng.choice(["ok", "ok", "error", "error", "kill"])
                 inner = []
                 src.append("%sdo local ctx = runtime.callcontext({kill={cpu=1000000}}, function()" % indent)
+                # to-be-closed locals holding values with both __close and __gc, pending when the context is left
+                tbc = []
+                for _ in range(rng.choice([0, 0, 1, 2, 3])):
+                    c = fresh("c")
+                    src.append("%s  local %s <close> = both('%s')" % (indent, c, c))
+                    inner.append([c, "c", c, False])
+                    tbc.append(c)
                 body(depth + 1, inner, indent + "  ")
                 if kind == "error":
                     src.append("%s  error('boom')" % indent)
@@ -463,6 +481,11 @@ def lua_program(rng):
                     src.append("%s  runtime.killcontext()" % indent)
                 src.append("%send) log(ctx.status) end" % indent)
                 if kind != "kill":
+                    # the pending __close handlers run first (reverse order of declaration), each marking a new value;
+                    # only then the context's finalisers, the values just closed included
+                    for c in reversed(tbc):
+                        expect.append("l:close:" + c)
+                        inner.append(["-", "c", "late:" + c, False])
                     expect.extend("gc:" + e[2] for e in reversed(inner) if e[2])
                 expect.extend("rel:" + e[0] for e in reversed(inner) if e[3])
                 expect.append("l:" + {"ok": "done", "error": "error", "kill": "killed"}[kind])
@@ -503,6 +526,27 @@ LUA_FIXED = [
     ("metatable-replaced", "a = setmetatable({}, gcmt('a'))\nsetmetatable(a, {})\nb = setmetatable({}, gcmt('b'))\nsetmetatable(b, nil)\n"
      "c = setmetatable({}, gcmt('c'))\nsetmetatable(c, gcmt('c2'))\nu = mkud('u', gcmt('gu'))\ndebug.setmetatable(u, {})\n", "",
      ["close", "gc:c2", "rel:u"]),
+    # to-be-closed values that also have __gc, pending when a limited context is left: __close before __gc (never
+    # finalised while still reachable), values marked by the handlers are finalised too; a killed context runs neither
+    ("tbc-gc-error-exit", BOTH_PRELUDE + "\nlocal ctx = runtime.callcontext({kill={cpu=100000}}, function()\n  local a <close> = both('a')\n"
+     "  local b <close> = both('b')\n  log('body')\n  error('boom')\nend)\nlog(ctx.status)\n", "",
+     ["l:body", "l:close:b", "l:close:a", "gc:late:a", "gc:late:b", "gc:b", "gc:a", "l:error", "close"]),
+    ("tbc-gc-normal-exit", BOTH_PRELUDE + "\nlocal ctx = runtime.callcontext({kill={cpu=100000}}, function()\n  local a <close> = both('a')\n"
+     "  local b <close> = both('b')\n  log('body')\n  return 1\nend)\nlog(ctx.status)\n", "",
+     ["l:body", "l:close:b", "l:close:a", "gc:late:a", "gc:late:b", "gc:b", "gc:a", "l:done", "close"]),
+    ("tbc-gc-kill", BOTH_PRELUDE + "\nlocal ctx = runtime.callcontext({kill={cpu=100000}}, function()\n  local a <close> = both('a')\n"
+     "  log('body')\n  runtime.killcontext()\nend)\nlog(ctx.status)\n", "",
+     ["l:body", "l:killed", "close"]),
+    # setmetatable with the metatable the table already has still (re-)marks: __gc added to the metatable after it was
+    # first set; re-marking changes the reverse-marking order; a finaliser re-arming its own argument gets a second call
+    ("same-metatable-late-gc", "local mt = {}\nt = setmetatable({}, mt)\nmt.__gc = gcmt('late').__gc\nsetmetatable(t, mt)\n", "",
+     ["close", "gc:late"]),
+    ("same-metatable-reorders", "local m1, m2 = gcmt('a'), gcmt('b')\na = setmetatable({}, m1)\nb = setmetatable({}, m2)\nsetmetatable(a, m1)\n", "",
+     ["close", "gc:a", "gc:b"]),
+    ("rearm-in-finalizer", "local done = false\nlocal mt\nmt = {__gc = function(x) log('gc:r') if not done then done = true keep = x setmetatable(x, mt) end end}\n"
+     "do local r = setmetatable({}, mt) end\nlocal n = 0\nwhile not done and n < 3000000 do local f = function() return {n} end f() n = n + 1 end\n"
+     "log(tostring(done))\n", "",
+     ["l:gc:r", "l:true", "close", "l:gc:r"]),
     ("nested-ctx", "runtime.callcontext({kill={cpu=100000}}, function()\n a = setmetatable({}, gcmt('a'))\n runtime.callcontext({kill={cpu=10000}}, function() b = mkud('b', gcmt('b')) end)\n log('mid')\nend)\nlog('out')\n", "",
      ["gc:b", "rel:b", "l:mid", "gc:a", "l:out", "close"]),
 ]
